@@ -4,6 +4,8 @@
    LawWrappers.dense_tree / C11_stream). *)
 From RS Require Import Base.Prelude Base.Text Stream.Types Stream.Concat Stream.Tree Sem.Attr
   Checkers.ChkComp Proofs.StreamConcat Proofs.AttrCodec Proofs.LawConcatAttr Proofs.LawWrappers.
+From RS Require Import Stream.Replace Checkers.ChkTree Proofs.StreamText Proofs.RStreamTree.
+From RS Require Proofs.ReplAttrStream Proofs.ReplAttrOrigin Proofs.ReplAttrCols Proofs.ReplAttrTree.
 
 (* ConcatSource, columns = true: every position inside the text contributed by child k is attributed
    to the same file name, line, column and name as child k attributes it on its own *)
@@ -42,3 +44,60 @@ Theorem C06_replace_identity_partial : forall st a cols c, dshape a = true ->
   = attr_of_stream (evs_of (stream st a (mkOpts cols false))) c.
 Proof. exact replace_nil_stream_attr_tree. Qed.
 Print Assumptions C06_replace_identity_partial.
+
+(* ---- ReplaceSource, the chunk state machine against the byte-level reference of Checkers/ChkComp.v
+   (schedule of replacements with emission points, pieces whose column is re-based only where the
+   recorded original content equals the text, the name rule) ---- *)
+
+(* origin: every surviving inner byte keeps the (file, line) its inner chunk gave it, every byte of a
+   replacement's content gets the (file, line) in force at its emission point - for ANY inner stream
+   that reassembles a text, announces densely and carries no empty chunk, and any replacements with
+   start <= end (overlapping, nested, beyond the end) *)
+Theorem C06_replace_origin : forall rs ievs T gi,
+  Forall (fun r => r_start r <= r_end r) rs ->
+  reassembles ievs T = true -> ReplAttrStream.no_empty_chunks ievs = true -> dense ievs 0 0 = true ->
+  map ReplAttrOrigin.fl (attr_of_stream (fst (replace_stream (sort_repls rs) ievs gi)) true)
+  = map ReplAttrOrigin.fl (replace_reference ievs rs).
+Proof. exact ReplAttrOrigin.replace_attr_origin. Qed.
+Print Assumptions C06_replace_origin.
+
+(* the full attribution (file, line, column, name), when in addition a file name carries the same
+   content everywhere and every recorded content is shorter than 2^32 bytes (u32 columns); the
+   ReplaceSource's own stream is again dense and free of empty chunks, so the statement nests *)
+Theorem C06_replace_full : forall rs ievs T gi,
+  Forall (fun r => r_start r <= r_end r) rs ->
+  reassembles ievs T = true -> ReplAttrStream.no_empty_chunks ievs = true -> dense ievs 0 0 = true ->
+  bindings_consistent (contents_of_events ievs) = true -> ReplAttrCols.contents_small ievs = true ->
+  attr_of_stream (fst (replace_stream (sort_repls rs) ievs gi)) true = replace_reference ievs rs /\
+  dense (fst (replace_stream (sort_repls rs) ievs gi)) 0 0 = true /\
+  ReplAttrStream.no_empty_chunks (fst (replace_stream (sort_repls rs) ievs gi)) = true.
+Proof. exact ReplAttrCols.replace_attr_full. Qed.
+Print Assumptions C06_replace_full.
+
+(* on source trees: a ReplaceSource over any tree over Raw* / Original / SourceMapSource / Concat /
+   Replace attributes exactly as the reference computed from its child's own stream *)
+Theorem C06_replace_tree : forall st inner rs,
+  RStreamTree.rshape inner = true -> treeA (SReplace inner rs) = true -> RStreamTree.rsmall inner = true ->
+  let comp10 := LawWrappers.evs_of (stream st (SReplace inner rs) ReplAttrTree.o10) in
+  let k10 := LawWrappers.evs_of (stream st inner ReplAttrTree.o10) in
+  bindings_consistent (contents_of_events k10) = true -> ReplAttrCols.contents_small k10 = true ->
+  attr_of_stream comp10 true = replace_reference k10 rs.
+Proof. exact ReplAttrTree.replace_tree_attr. Qed.
+Print Assumptions C06_replace_tree.
+
+(* without the "no empty chunk" hypothesis the origin statement is false (the state machine emits a
+   pending replacement while handling an empty chunk): the witness stays visible *)
+Theorem C06_replace_needs_nonempty_chunks :
+  let ievs := [ESource 0 [102] None; ESource 1 [103] None; ESource 2 [104] None;
+               EChunk (Some [97;98;99;100]) (mkMapping 1 0 (Some (mkOrig 0 1 0 None)));
+               EChunk (Some []) (mkMapping 1 4 (Some (mkOrig 1 1 0 None)));
+               EChunk (Some [101;102]) (mkMapping 1 4 (Some (mkOrig 2 1 0 None)))] in
+  let rs := [mkRepl 1 4 [88] None 1; mkRepl 2 5 [89] None 1] in
+  reassembles ievs [97;98;99;100;101;102] = true /\ dense ievs 0 0 = true /\
+  map ReplAttrOrigin.fl (attr_of_stream (fst (replace_stream (sort_repls rs) ievs (1, 6))) true)
+  <> map ReplAttrOrigin.fl (replace_reference ievs rs).
+Proof.
+  pose proof ReplAttrOrigin.replace_attr_origin_empty_chunk_counterexample as H. cbv zeta in H |- *.
+  destruct H as (H1 & H2 & _ & _ & H5). exact (conj H1 (conj H2 H5)).
+Qed.
+Print Assumptions C06_replace_needs_nonempty_chunks.
